@@ -375,7 +375,7 @@ InvRecord World::RunInvocation(const InvPlan& plan) {
   ProcSpec sp;
   const char* kFmt = "[%s/%f/%t/%r] ";
   if (plan.status_mode == 1) sp.env["NINJA_STATUS"] = kFmt;
-  if (plan.status_mode == 2) { a.push_back("--status"); a.push_back("[$started/$finished/$total/$running] "); }
+  if (plan.status_mode == 2) { a.push_back("--status"); a.push_back("[$started/$finished/$total/$running] $description"); }
   if (!plan.tool.empty()) { a.push_back("-t"); for (auto& t : plan.tool) a.push_back(t); }
   for (auto& t : plan.targets) a.push_back(t);
   sp.argv = a;
